@@ -56,6 +56,8 @@ private:
 
     friend class ::tst_QXmppStream;
 
+    // received bytes that do not form a complete UTF-8 character yet
+    QByteArray m_undecodedData;
     QString m_dataBuffer;
     bool m_directTls = false;
     QSslSocket *m_socket = nullptr;
